@@ -207,7 +207,8 @@ Print Assumptions C09_dict_late_install_refuted.
 Theorem C09_copy_try_before_destroy_refuted :
   returned (copy_life no_temps (current true) [] [] small_stream XWriteErrorReadPending) /\
   ~ returned (copy_life no_temps (try_before_destroy (current true)) [] [] small_stream XWriteErrorReadPending) /\
-  returned (copy_life no_temps (try_before_destroy (current true)) [] [] small_stream XWriteError).
+  returned (copy_life no_temps (try_before_destroy (current true)) [] [] small_stream XWriteError) /\
+  returned (copy_life no_temps (try_before_destroy (current true)) [] [] small_stream XZeroWriteReadPending).
 Proof. exact try_before_destroy_refuted. Qed.
 Print Assumptions C09_copy_try_before_destroy_refuted.
 
